@@ -15,7 +15,8 @@ PROP = "C19"
 TECHNIQUE = "Hypothesis-generated event lists rendered by independent reference encoders into each text format, loaded through csep.load_catalog and compared with the generating list after the format's own quantisation (round trip / differential)"
 RULE = ("one case = format (csep-csv, zmap, jma-csv, ingv_horus, ndk) x 1..50 records (full coordinate ranges; times across years, leap days, "
         "minute/hour/day roll-overs; seconds written as 60 where the format allows; JMA offsets +09:00/+00:00/-03:30; optional columns "
-        "present/absent; single-record files). Expected events = generating list after the format's quantisation (text precision; HORUS "
+        "present/absent; single-record files; record lists repeated to 2500+ records; loader option format=csep; optional non-UTC process "
+        "time zone). Expected events = generating list after the format's quantisation (text precision; HORUS "
         "float32; ZMAP/NDK/HORUS whole seconds by truncation, CSEP/JMA milliseconds; NDK magnitude from the scalar moment). "
         "Non-trivial = file with >= 2 records containing a roll-over or a non-UTC offset; distinct = canonical JSON.")
 ASSUMPTIONS = ["files follow the column layouts in the reader docstrings / bundled fixtures (reference encoders in pbt/files.py)",
@@ -73,6 +74,9 @@ def write(case, path):
 
 def check_case(ctx, case):
     import csep
+    if case.get("repeat", 1) > 1:
+        case = dict(case, recs=case["recs"] * case["repeat"])     # the same records many times over (large files)
+        ctx.count("large_files:%s:%s_records" % (case["fmt"], "2000+" if len(case["recs"]) >= 2000 else "<2000"))
     want = expected(case)
     with tempfile.TemporaryDirectory() as d:
         path = os.path.join(d, "catalog." + {"csep-csv": "csv", "zmap": "dat", "jma-csv": "csv", "ingv_horus": "txt", "ndk": "ndk"}[case["fmt"]])
@@ -187,6 +191,8 @@ def cases(draw, max_n=50):
         c["ncols"] = draw(st.sampled_from([10, 13]))
     if fmt == "ndk":
         c["nl"] = draw(st.booleans())
+    if draw(st.integers(0, 15)) == 0:
+        c["repeat"] = draw(st.sampled_from([40, max(40, -(-2500 // n))]))      # second choice: at least 2500 records
     if draw(st.integers(0, 3)) == 0:
         c["format"] = "csep"       # documented alternative of format='native': same records in the CSEP catalog class
     return draw_tz(draw, c)
@@ -206,3 +212,11 @@ def run(ctx):
         c.record(case, len(case["recs"]) >= 2 and rollover(case), case["fmt"])
 
     ctx.drive(cases(max_n=ctx.n(50, 200)), ctx.n(150, 1500), fn=fn, salt=1)
+    # large files by construction: a small generated record list repeated to at least 2500 records
+    big = cases(max_n=12).map(lambda c: dict(c, repeat=max(40, -(-2500 // len(c["recs"])))))
+
+    def fn_big(c, case):
+        check_case(c, case)
+        c.record({k: v for k, v in case.items() if k != "recs"} | {"n_recs": len(case["recs"])}, True, case["fmt"] + ":large_file")
+
+    ctx.drive(big, ctx.n(8, 60), fn=fn_big, salt=2)
